@@ -689,6 +689,9 @@ func (p *parser) primary() (Expr, error) {
 		}
 		return Ident{t.s}, nil
 	case "op":
+		if t.s == "*" && p.peek().kind == "id" { // pointer type name (first argument of asType)
+			return Ident{"*" + p.next().s}, nil
+		}
 		if t.s == "(" {
 			e, err := p.expr(0)
 			if err != nil {
